@@ -109,7 +109,7 @@ package s3afero
 //@ requires          inv:    mdb(db)
 //@ requires [C11]    req:    gofakes3.wfRangeReq(rangeRequest)
 //@ ensures [C02]     nobucket: imp(!fs_exists(db.bucketFs, bucketName) && io_fails == old(io_fails), errcode(rerr) == gofakes3.ErrNoSuchBucket)
-//@ ensures [C02]     nokey:  imp(fs_exists(db.bucketFs, bucketName) && (!fs_exists(db.bucketFs, objp(bucketName, objectName)) || fs_isdir(db.bucketFs, objp(bucketName, objectName))) && io_fails == old(io_fails),
+//@ ensures [C02,C09] nokey:  imp(fs_exists(db.bucketFs, bucketName) && (!fs_exists(db.bucketFs, objp(bucketName, objectName)) || fs_isdir(db.bucketFs, objp(bucketName, objectName))) && io_fails == old(io_fails),
 //@                             errcode(rerr) == gofakes3.ErrNoSuchKey)
 //@ ensures [C11]     badrange: imp(fs_exists(db.bucketFs, bucketName) && fs_exists(db.bucketFs, objp(bucketName, objectName)) && !fs_isdir(db.bucketFs, objp(bucketName, objectName)) && rangeRequest != nil &&
 //@                             !gofakes3.specRangeOK(rangeRequest.FromEnd, rangeRequest.Start, rangeRequest.End, fs_size(db.bucketFs, objp(bucketName, objectName))) && io_fails == old(io_fails),
@@ -135,7 +135,7 @@ package s3afero
 //@ props C01 C02 C10 C09
 //@ requires          inv:    mdb(db)
 //@ ensures [C02]     nobucket: imp(!fs_exists(db.bucketFs, bucketName) && io_fails == old(io_fails), errcode(ret1) == gofakes3.ErrNoSuchBucket)
-//@ ensures [C02]     nokey:  imp(fs_exists(db.bucketFs, bucketName) && (!fs_exists(db.bucketFs, objp(bucketName, objectName)) || fs_isdir(db.bucketFs, objp(bucketName, objectName))) && io_fails == old(io_fails),
+//@ ensures [C02,C09] nokey:  imp(fs_exists(db.bucketFs, bucketName) && (!fs_exists(db.bucketFs, objp(bucketName, objectName)) || fs_isdir(db.bucketFs, objp(bucketName, objectName))) && io_fails == old(io_fails),
 //@                             errcode(ret1) == gofakes3.ErrNoSuchKey)
 //@ ensures [C01,C10] fields: imp(ret1 == nil, ret0 != nil && ret0.Name == objectName && ret0.Size == fs_size(db.bucketFs, objp(bucketName, objectName)) && ret0.Range == nil &&
 //@                             typeis(ret0.Contents, s3io.NoOpReadCloser) && lm_bucket == bucketName && lm_object == objectName && lm_size == ret0.Size)
@@ -302,7 +302,7 @@ package s3afero
 //@ requires          inv:    sdb(db)
 //@ requires [C11]    req:    gofakes3.wfRangeReq(rangeRequest)
 //@ ensures [C02,C10] nobucket: imp(bucketName != db.name, errcode(err) == gofakes3.ErrNoSuchBucket && io_fails == old(io_fails))
-//@ ensures [C02]     nokey:  imp(bucketName == db.name && (!fs_exists(db.fs, sobjp(objectName)) || fs_isdir(db.fs, sobjp(objectName))) && io_fails == old(io_fails),
+//@ ensures [C02,C09] nokey:  imp(bucketName == db.name && (!fs_exists(db.fs, sobjp(objectName)) || fs_isdir(db.fs, sobjp(objectName))) && io_fails == old(io_fails),
 //@                             errcode(err) == gofakes3.ErrNoSuchKey)
 //@ ensures [C11]     badrange: imp(bucketName == db.name && fs_exists(db.fs, sobjp(objectName)) && !fs_isdir(db.fs, sobjp(objectName)) && rangeRequest != nil &&
 //@                             !gofakes3.specRangeOK(rangeRequest.FromEnd, rangeRequest.Start, rangeRequest.End, fs_size(db.fs, sobjp(objectName))) && io_fails == old(io_fails),
@@ -328,7 +328,7 @@ package s3afero
 //@ props C01 C02 C10 C09
 //@ requires          inv:    sdb(db)
 //@ ensures [C02,C10] nobucket: imp(bucketName != db.name, errcode(ret1) == gofakes3.ErrNoSuchBucket && io_fails == old(io_fails))
-//@ ensures [C02]     nokey:  imp(bucketName == db.name && (!fs_exists(db.fs, sobjp(objectName)) || fs_isdir(db.fs, sobjp(objectName))) && io_fails == old(io_fails),
+//@ ensures [C02,C09] nokey:  imp(bucketName == db.name && (!fs_exists(db.fs, sobjp(objectName)) || fs_isdir(db.fs, sobjp(objectName))) && io_fails == old(io_fails),
 //@                             errcode(ret1) == gofakes3.ErrNoSuchKey)
 //@ ensures [C01,C10] fields: imp(ret1 == nil, ret0 != nil && ret0.Name == objectName && ret0.Size == fs_size(db.fs, sobjp(objectName)) && ret0.Range == nil &&
 //@                             typeis(ret0.Contents, s3io.NoOpReadCloser) && em_bucket == bucketName && em_object == objectName && em_size == ret0.Size)
@@ -428,3 +428,35 @@ package s3afero
 //@ props C03 C09
 //@ requires          inv:    db != nil && db.fs != nil && db.metaStore != nil && db.metaStore.fs != nil && prefix != nil
 //@ ensures           lock:   db.lock == old(db.lock)
+
+// ---- construction (C10, C17) ---------------------------------------------------------------
+// The buckets live below "buckets" and, unless a metadata file system is configured, the metadata below
+// "metadata" of the file system handed in - two sibling subtrees, so no bucket name can address the metadata
+// and no internal directory shows up as a bucket.
+
+//@ func NewBasePathFs
+//@ props C10 C17 C09
+//@ requires          src:    source != nil
+//@ ensures [C10]     base:   imp(ret1 == nil, ret0 != nil && bp_src(ret0) == source && bp_path(ret0) == path && fresh(ret0) && allocated(ret0))
+//@ ensures [C10]     keep:   allif(x, imp(x != ret0, bp_src(x) == old(bp_src(x)) && bp_path(x) == old(bp_path(x))))
+//@ modifies bp_src, bp_path, fs_exists(source), fs_isdir(source), io_fails, fs_last_mkdir
+
+//@ func newMetaStore
+//@ props C10 C09
+//@ ensures [C10]     fs:     ret0 != nil && ret0.fs == fs && fresh(ret0)
+//@ modifies nothing
+
+//@ func ensureNoOsFs
+//@ props C09
+//@ modifies nothing
+
+//@ func modTimeFsCalc
+//@ props C09
+//@ modifies nothing
+
+//@ func MultiBucket
+//@ props C10 C17 C09
+//@ requires          fs:     fs != nil
+//@ loop 1 invariant  plain:  b != nil && fresh(b) && imp(len(opts) == 0, b.configOnly.metaFs == nil)
+//@ ensures [C10,C17] buckets: imp(ret1 == nil, ret0 != nil && ret0.bucketFs != nil && bp_src(ret0.bucketFs) == fs && bp_path(ret0.bucketFs) == "buckets")
+//@ ensures [C10,C17] meta:   imp(ret1 == nil && len(opts) == 0, ret0.metaStore != nil && bp_src(ret0.metaStore.fs) == fs && bp_path(ret0.metaStore.fs) == "metadata")
